@@ -193,6 +193,21 @@ def register4(E):
         l, lo, hi = bl(a[0])
         if a[1] > hi - lo: raise Panic('split_at out of bounds')
         return Agg([SliceRef(l, lo, lo + a[1]), SliceRef(l, lo + a[1], hi)], 'tup')
+    @R(SLICE + r'(chunk_by|chunk_by_mut)::<')
+    def _(e, c, a):
+        l, lo, hi = bl(a[0]); out = []; start = lo
+        for i in range(lo + 1, hi):
+            if not truth(e, e.closure_call(a[1], [Ref(l, i - 1), Ref(l, i)])): out.append(SliceRef(l, start, i)); start = i
+        if hi > lo: out.append(SliceRef(l, start, hi))
+        return It('list', l=out, pos=0)
+    @R(SLICE + r'(split|rsplit|split_mut)::<')
+    def _(e, c, a):
+        l, lo, hi = bl(a[0]); out = []; start = lo
+        for i in range(lo, hi):
+            if truth(e, e.closure_call(a[1], [Ref(l, i)])): out.append(SliceRef(l, start, i)); start = i + 1
+        out.append(SliceRef(l, start, hi))
+        if '::rsplit::' in c: out.reverse()
+        return It('list', l=out, pos=0)
     @R(SLICE + r'(chunks|chunks_exact)$')
     def _(e, c, a):
         l, lo, hi = bl(a[0]); n = a[1]; out = []
@@ -396,6 +411,48 @@ def register4(E):
         if op == 'is_err': return deref(r).v == 'Err'
         return r.f[0] if r.v == 'Ok' else a[1]
     # ---- bstr
+    def bmatch(e, l, i, p):
+        cs = []
+        for x, y in zip(l[i:i + len(p)], p):
+            if isinstance(x, int) and isinstance(y, int):
+                if x != y: return False
+            else: cs.append(x == y)
+        return truth(e, True if not cs else (cs[0] if len(cs) == 1 else z3.And(*cs)))
+    def pat_of(x):
+        pl, plo, phi = bl(x); return pl[plo:phi]
+    @R(r'as ByteSlice>::(split_str|rsplit_str)::<')
+    def _(e, c, a):
+        l, lo, hi = bl(a[0]); p = pat_of(a[1]); out = []; start = lo; i = lo
+        if not p: raise EngineError('split_str with empty needle')
+        while i + len(p) <= hi:
+            if bmatch(e, l, i, p): out.append(SliceRef(l, start, i)); i += len(p); start = i
+            else: i += 1
+        out.append(SliceRef(l, start, hi))
+        if 'rsplit_str' in c: out.reverse()
+        return It('list', l=out, pos=0)
+    @R(r'as ByteSlice>::(find|rfind)::<')
+    def _(e, c, a):
+        l, lo, hi = bl(a[0]); p = pat_of(a[1]); rng_ = range(lo, hi - len(p) + 1)
+        for i in (reversed(rng_) if '::rfind' in c else rng_):
+            if bmatch(e, l, i, p): return SOME(i - lo)
+        return NONE()
+    @R(r'as ByteSlice>::(contains_str|starts_with_str|ends_with_str)::<')
+    def _(e, c, a):
+        l, lo, hi = bl(a[0]); p = pat_of(a[1])
+        if len(p) > hi - lo: return False
+        if 'starts_with' in c: return bmatch(e, l, lo, p)
+        if 'ends_with' in c: return bmatch(e, l, hi - len(p), p)
+        return any(bmatch(e, l, i, p) for i in range(lo, hi - len(p) + 1))
+    @R(r'as ByteSlice>::lines$')
+    def _(e, c, a):
+        l, lo, hi = bl(a[0]); out = []; start = lo
+        for i in range(lo, hi):
+            if truth(e, l[i] == 10):
+                end = i
+                if end > start and truth(e, l[end - 1] == 13): end -= 1
+                out.append(SliceRef(l, start, end)); start = i + 1
+        if start < hi: out.append(SliceRef(l, start, hi))
+        return It('list', l=out, pos=0)
     @R(r'as ByteSlice>::find_byte$')
     def _(e, c, a):
         l, lo, hi = bl(a[0])
